@@ -193,6 +193,20 @@ Definition occurs (t : list row) (svc : Z) : bool := existsb (fun r => snd (fst 
 Definition complete_okb (t : list row) : bool := forallb (fun p => occurs t (fst p)) named_services.
 Definition missing_services (t : list row) : list Z := filter (fun s => negb (occurs t s)) (map fst named_services).
 
+(* every HANDLE the probes obtained through the public builder API, in every variant (a stream with or without
+   initializes_crn_attributes, a view over a column list / a single name / the whole table / with a query, a pipeline from
+   register_value_producer / register_rate_producer / get_value, a scalar / categorical / interpolated lookup table, an
+   emitter of each channel ...): (key of the method that must carry the guard, service number; 0 = a service the property
+   does not name, for which only the presence of a constraint is recorded).  The table is complete only if each of them
+   has its row. *)
+Definition handle_entry := (Z * Z)%type.
+Definition handle_okb (t : list row) (h : handle_entry) : bool :=
+  existsb (fun r : row => (fst (fst r) =? fst h) && (snd (fst r) =? snd h)) t.
+Definition handles_okb (t : list row) (hs : list handle_entry) : bool := forallb (handle_okb t) hs.
+Definition missing_handles (t : list row) (hs : list handle_entry) : list handle_entry :=
+  filter (fun h => negb (handle_okb t h)) hs.
+Definition check_handle (t : list row) (h : handle_entry) : bool := handle_okb t h.
+
 (* the state set read off the live life cycle is the documented one (as a set) *)
 Definition same_set (a b : list Z) : bool := forallb (fun x => zmem x b) a && forallb (fun x => zmem x a) b.
 
